@@ -31,9 +31,9 @@ func init() {
 		Gen: func(tier string, seed uint64, i int) any {
 			r := prng.Derive(seed, 1212, uint64(i))
 			if i%2 == 0 {
-				return &c12Case{Side: "switch", Recipe: switchRecipe(12, seed, i), Slack: r.Pick(0, 1, 8, 64)}
+				return &c12Case{Side: "switch", Recipe: switchRecipe(12, seed, i/2), Slack: r.Pick(0, 1, 8, 64)}
 			}
-			return &c12Case{Side: "ctrl", Recipe: withBundleProps(r, ctrlRecipe(12, tier, seed, i)), Slack: r.Pick(0, 1, 8, 64)}
+			return &c12Case{Side: "ctrl", Recipe: withBundleProps(r, ctrlRecipe(12, tier, seed, i/2)), Slack: r.Pick(0, 1, 8, 64)}
 		},
 		NewCase: func() any { return new(c12Case) },
 		Eval:    c12Eval,
@@ -41,7 +41,7 @@ func init() {
 			if a.Counters["parsed"] < 10000 || a.SetSize("kinds") < 40 || a.Counters["slices_checked"] < 100000 {
 				return fmt.Errorf("too little observed: parsed=%d kinds=%d slices=%d", a.Counters["parsed"], a.SetSize("kinds"), a.Counters["slices_checked"])
 			}
-			return nil
+			return needKinds(a, "kinds", "switch", "ctrl")
 		},
 		Assumptions: []string{
 			"frames the parser rejects are skipped (C04's business); decoders not reachable from the parser entry point (IGMP, DHCP, LLDP, TCP) are outside this property",
